@@ -1,5 +1,169 @@
+import Casket.Model.FileServe
+import Casket.Spec.FileServe
+import Casket.Generated.FileServe
 import Driver.Proto
-/- Streams of C02 (stub: not built yet). -/
+/-
+Streams of C02.
+
+  c02.serve  fs  root  casketfile  prefix  browse  index  method  target  acceptenc
+     fs          hex of lines  "<d|f><ino> <absolute path>"   (paths relative to the fixture dir)
+     root        hex, absolute path of the site root inside the fixture
+     casketfile  hex, absolute path of the Casketfile the site is loaded from
+     prefix      hex, path of the site address ("" = none)
+     browse      hex of  "scope|type,type;scope|…"   ("" = no browse directive, "|" separates archive types)
+     index       hex of comma separated index pages  ("" = default list)
+     method      plain
+     target      hex, raw request target
+     acceptenc   hex, Accept-Encoding value ("" = header absent)
+     listfmt     j | h : the listing is requested as JSON or as the default HTML page (same names)
+     out         S<code> | R<code> TAB hexloc | F TAB enc TAB ino | L TAB hexnames | A TAB name=ino,… | H<code> TAB enc
+  c02.clean  hexpath        out = hex of path.Clean(path) TAB hex of path.Clean("/"+path)
+  c02.match  hexpath hexbase    out = 1|0   (httpserver.Path.Matches)
+  c02.escape hexpath        out = hex of (&url.URL{Path: p}).EscapedPath()
+-/
 namespace Driver.C02
-def streams : List Driver.Stream := []
+open Casket.Path Casket.FS Casket.FileServe
+
+def elemsOf (p : Bytes) : List Bytes := (splitOn slash p).filter (· ≠ [])
+
+def parseNatBytes (ds : Bytes) : Option Nat :=
+  if ds = [] ∨ !ds.all (fun c => 48 ≤ c ∧ c ≤ 57) then none
+  else some (ds.foldl (fun acc c => acc * 10 + (c.toNat - 48)) 0)
+
+def parseEntry (line : Bytes) : Option Entry :=
+  match line with
+  | k :: rest =>
+    let (num, path, found) := cut 32 rest
+    if !found then none
+    else match parseNatBytes num with
+      | none => none
+      | some ino =>
+        if k = 100 then some { path := elemsOf path, isDir := true, ino := ino }
+        else if k = 102 then some { path := elemsOf path, isDir := false, ino := ino }
+        else none
+  | [] => none
+
+def parseFS (txt : Bytes) : Option FS :=
+  if txt = [] then some [] else (splitOn 10 txt).mapM parseEntry
+
+def parseBrowse (txt : Bytes) : List BrowseCfg :=
+  if txt = [] then []
+  else (splitOn 59 txt).map fun item =>
+    let (scope, types, _) := cut 124 item
+    { scope := scope, archives := if types = [] then [] else splitOn 44 types }
+
+structure Case where
+  fs : FS
+  site : Site
+  method : Bytes
+  target : Bytes
+  ae : Bytes
+
+def parseCase : List String → Option Case
+  | [fsH, rootH, cfH, preH, brH, ixH, method, tgtH, aeH, _listfmt] =>
+    parseCase [fsH, rootH, cfH, preH, brH, ixH, method, tgtH, aeH]
+  | [fsH, rootH, cfH, preH, brH, ixH, method, tgtH, aeH] => do
+    let fs ← parseFS (← Driver.unhex fsH)
+    let root ← Driver.unhex rootH
+    let cf ← Driver.unhex cfH
+    let pre ← Driver.unhex preH
+    let br ← Driver.unhex brH
+    let ix ← Driver.unhex ixH
+    let tgt ← Driver.unhex tgtH
+    let ae ← Driver.unhex aeH
+    let site : Site := {
+      root := elemsOf (clean root)
+      hide := hideCasketfile (clean root) (clean cf)
+      indexPages := if ix = [] then Casket.Generated.defaultIndexPages else splitOn 44 ix
+      encodings := Casket.Generated.staticEncodingPriority
+      pathPrefix := if pre = [] then [slash] else pre
+      browse := parseBrowse br }
+    pure { fs := fs, site := site, method := method.toUTF8.toList, target := tgt, ae := ae }
+  | _ => none
+
+def hexB (b : Bytes) : String := Driver.hex b
+
+def sortStrings (l : List String) : List String := l.mergeSort (fun a b => decide (a ≤ b))
+
+def encStr : Option Bytes → String
+  | none => "-"
+  | some e => String.ofList (e.map fun c => Char.ofNat c.toNat)
+
+def render (method : Bytes) (r : Resp) : String :=
+  let head := method = mHEAD
+  match r with
+  | .status c => s!"S{c}"
+  | .redirect c loc => s!"R{c}\t{hexB loc}"
+  | .file ino enc => if head then s!"H200\t{encStr enc}" else s!"F\t{encStr enc}\t{ino}"
+  | .listing names => if head then "H200\t-" else "L\t" ++ ",".intercalate (sortStrings (names.map hexB))
+  | .archive items =>
+    if head then "H200\t-"
+    else "A\t" ++ ",".intercalate (sortStrings (items.map fun it =>
+      hexB (joinSlash it.name) ++ "=" ++ (match it.content with | none => "d" | some i => toString i)))
+
+def serveModel (f : List String) : String :=
+  match parseCase f with
+  | none => "bad-case"
+  | some c => render c.method (serve c.fs c.site c.method c.target c.ae)
+
+def parseItem (s : String) : Option Item :=
+  match s.splitOn "=" with
+  | [n, c] => do
+    let nb ← Driver.unhex n
+    if c = "d" then pure { name := splitOn slash nb, content := none }
+    else pure { name := splitOn slash nb, content := some (← c.toNat?) }
+  | _ => none
+
+def parseObs (out : String) : Option Resp :=
+  match out.splitOn "\t" with
+  | [s] =>
+    if s.startsWith "S" then (s.drop 1).toString.toNat?.map Resp.status else none
+  | [r, loc] =>
+    if r.startsWith "R" then do
+      let c ← (r.drop 1).toString.toNat?
+      pure (.redirect c (← Driver.unhex loc))
+    else if r.startsWith "H" then (r.drop 1).toString.toNat?.map Resp.status
+    else if r = "L" then
+      if loc = "" then some (.listing []) else (loc.splitOn ",").mapM Driver.unhex |>.map Resp.listing
+    else if r = "A" then
+      if loc = "" then some (.archive []) else (loc.splitOn ",").mapM parseItem |>.map Resp.archive
+    else none
+  | ["F", enc, ino] => do
+    let i ← ino.toNat?
+    pure (.file i (if enc = "-" then none else some enc.toUTF8.toList))
+  | _ => none
+
+def serveJudge (f : List String) (out : String) : String :=
+  match parseCase f with
+  | none => "bad:unparsable:case"
+  | some c =>
+    match parseObs out with
+    | none => "bad:unparsable:" ++ out
+    | some obs => Casket.FileServeSpec.verdict c.fs c.site c.target c.ae obs
+
+def cleanModel : List String → String
+  | [h] => match Driver.unhex h with
+    | some p => hexB (clean p) ++ "\t" ++ hexB (slash :: joinSlash (jailElems p))
+    | none => "bad-case"
+  | _ => "bad-case"
+
+def matchModel : List String → String
+  | [p, b] => match Driver.unhex p, Driver.unhex b with
+    | some p, some b => if pathMatches p b then "1" else "0"
+    | _, _ => "bad-case"
+  | _ => "bad-case"
+
+def escapeModel : List String → String
+  | [h] => match Driver.unhex h with
+    | some p => hexB (escapedPath { path := p, rawPath := [], rawQuery := [] })
+    | none => "bad-case"
+  | _ => "bad-case"
+
+def streams : List Driver.Stream := [
+  { name := "c02.serve", model := serveModel, judge := serveJudge },
+  { name := "c02.clean", model := cleanModel, judge := fun _ _ => "ok" },
+  { name := "c02.match", model := matchModel, judge := fun _ _ => "ok" },
+  { name := "c02.escape", model := escapeModel, judge := fun _ _ => "ok" }
+]
+
 end Driver.C02
